@@ -63,6 +63,8 @@ def judgeCollapse (crit : Option Crit) (rr rt : Bool) (b : T) (outcome : String)
   | some a =>
     let removed := nInner b - nInner a
     let tags := tags0 ++ tagIf (removed ≥ 1) "removed" ++ tagIf (nInner a ≥ 1) "kept" ++
+      -- the verdict rests on how an ABSENT length is read (the oracle accepts both readings)
+      tagIf (match crit with | some c => usesAmbiguity c rt b | none => false) "absent-len-selected" ++
       tagIf (removed ≥ 1 && nInner a ≥ 1) "nontrivial" ++
       tagIf (b.rooted && !a.rooted) "unrooted-by-op"
     let orc : Option String :=
@@ -214,7 +216,10 @@ def handleCmd (f : List String) : Verdict :=
       let tags := ["cmd", "cmd-" ++ cmd, "out-" ++ outmode] ++ tagIf fl.root "rr" ++ tagIf fl.tips "rt" ++
         tagIf (fl.l.isNone && fl.s.isNone && fl.mn.isNone && fl.mx.isNone) "default-threshold" ++
         tagIf stops "stops-on-error" ++ tagIf (recs.length ≥ 2) "multi" ++
-        tagIf (good.length ≥ 1) "nontrivial" ++
+        -- non-trivial by the stated rule: some written tree lost an inner branch and kept one (collapse),
+        -- or gained one (resolve)
+        tagIf ((good.zip outs).any fun p =>
+          if cmd == "resolve" then nInner p.2 > nInner p.1 else nInner p.2 < nInner p.1 && nInner p.2 ≥ 1) "nontrivial" ++
         tagIf (good.any fun t => anyPPosL t.kids) "ppos-nonzero"
       -- oracle, model-free
       if outs.length != good.length then
